@@ -157,6 +157,12 @@ func ruleC09(c *Ctx, r *Report) {
 
 	// ---- R2 same encoding, only conversions around
 	r.Floor("C09-R2", 4, "encode side, decode side, plaintext in, plaintext out")
+	{
+		p9 := c.prov()
+		if len(p9.Problems) == 0 {
+			chokeReturnsRule(c, r, p9, c.placeholders(p9), "C09-R2")
+		}
+	}
 	encKey, decKey := fnFullName(enc), fnFullName(dec)
 	var encSites []*ssa.Call
 	for _, f := range c.SortedFuncs() {
@@ -516,6 +522,12 @@ func ruleC10(c *Ctx, r *Report) {
 	// ---- R3 determinism
 	r.Floor("C10-R3", 3, "effect scan, key stores, setter callers")
 	keysetConstantsRule(c, r, enc, "C10-R3")
+	{
+		p10 := c.prov()
+		if len(p10.Problems) == 0 {
+			chokeReturnsRule(c, r, p10, c.placeholders(p10), "C10-R1")
+		}
+	}
 	reach := c.pkgReach(enc)
 	nEff := 0
 	for f := range reach {
